@@ -109,8 +109,16 @@ INIT_INVALID = [
     ("ValueError", BAD_FORMAT),
     ("ValueError", "(%s) or (%s)" % (BAD_COMPRESSION, COMPRESSED_REMOTE)),
     ("ValueError", BAD_EXAMPLES)]
-contract(SH + ".__init__", params=PARAM_T, raises=INIT_INVALID, modifies=["*"], props=["C20"], cover=True,
-    note="raises ValueError iff the reference predicate of the statement holds; every other combination returns normally")
+# option plumbing: every option is stored under its own name, unchanged (the stages read these fields: contracts/plumbing.py)
+_RENAMED = {"discard_useless_constraints_with_positive_closure": "_discard_useles_constraints_with_positive_closure",
+            "all_instances_are_compliant_mode": "_all_compliant_mode"}
+_DERIVED = {"namespaces_dict", "instantiation_property", "limit_remote_instances"}
+STORED = ["self.%s == %s" % (_RENAMED.get(n, "_" + n), n) for n in _names[1:]
+          if n not in _DERIVED and _RENAMED.get(n, "_" + n) in FIELDS and FIELDS[_RENAMED.get(n, "_" + n)] == PARAM_T[n]]
+STORED.append("self._limit_remote_instances == ite(instances_cap == -1, limit_remote_instances, instances_cap)")     # instances_cap wins over the deprecated option
+contract(SH + ".__init__", params=PARAM_T, raises=INIT_INVALID, ensures=STORED, modifies=["*"], props=["C20", "C13", "C15", "C16"], cover=True,
+    note="raises ValueError iff the reference predicate of the statement holds; every other combination returns normally, with every option stored "
+         "under its own name (instances_cap taking precedence over the deprecated limit_remote_instances)")
 
 # ---- call-time checks of shex_graph / profile_graph -------------------------------------------------------------
 SCHEMAS["Shaper"].fields.update({"_target_classes_dict": Opt(Int), "_profile": Opt(Int), "_shape_list": Opt(Int), "_shape_list_threshold": Opt(Real),
